@@ -258,6 +258,10 @@ class Runner:
                                    meta_extra=emuhist.meta_extra_for(system))
         r = emu.ovniemu(self.bdir, td, ("-l",), timeout=30)
         pc = panic_clock(r.text)
+        if pc is None and "emu_step failed" in r.text:
+            # an event was refused but the report naming it is missing: the
+            # observation "which event" cannot be projected
+            raise core.MachineryError("ovniemu refused an event without the panic report naming it:\n" + r.text[-1500:])
         at = clocks.index(pc) if pc in clocks else (None if pc is None else -1)
         o = {"verdict": r.verdict, "refused_at": at, "probe_at": probe_at,
              "errors": r.last_errors(3)}
